@@ -21,8 +21,8 @@ from ..values import C, FALSE, NONE, TRUE, App, Cls, Ref, Sym, Tup
 READ = f"{RF}.read"
 
 
-def read_paths(ctx, on_cont: bool, skip: bool, ops=("TEXT", "BINARY", "CONT", "PING", "PONG"), may_raise=None, extra_env=None, errors=()):
-    I = Interp(ctx.index, Config(stubs=sock_stubs(frame_source(ops, errors)), may_raise=may_raise))
+def read_paths(ctx, on_cont: bool, skip: bool, ops=("TEXT", "BINARY", "CONT", "PING", "PONG"), may_raise=None, extra_env=None, errors=(), reassembled=False):
+    I = Interp(ctx.index, Config(stubs=sock_stubs(frame_source(ops, errors, reassembled=reassembled)), may_raise=may_raise))
 
     def closure(run):
         app = mk_app(I, run, {"on_cont_message": on_cont}, keep_running=TRUE)
@@ -42,9 +42,10 @@ def r1(ctx):
     dec = lambda enc="utf-8": f"m:decode(<fdata>, '{enc}')"
     for on_cont in (False, True):
         for skip in (False, True):
-            I, outs = read_paths(ctx, on_cont, skip)
+            I, outs = read_paths(ctx, on_cont, skip, reassembled=not on_cont)
             for o in outs:
                 op = o.run.memo.get("frame_op")
+                frag = ":reassembled" if o.run.memo.get("reassembled") else ""
                 calls = [call_sig(e) for e in user_calls(o)]
                 reads = [e for e in o.effects if e.name == "appsock.recv_data_frame"]
                 text_data = "<fdata>" if skip else dec()
@@ -61,7 +62,7 @@ def r1(ctx):
                 else:  # CONT without a continuation handler: delivered as a message of its type
                     want = ["on_data(<fdata>, 0, True)", "on_message(<fdata>)"]
                 ok = calls == want and len(reads) == 1 and reads[0].args == (TRUE,) and o.kind == "return" and o.value == TRUE
-                ctx.ob(f"{READ}:{op}:on_cont_message={'set' if on_cont else 'none'}:skip_utf8={skip}", ok,
+                ctx.ob(f"{READ}:{op}{frag}:on_cont_message={'set' if on_cont else 'none'}:skip_utf8={skip}", ok,
                        f"callbacks {calls}" if ok else f"callbacks {calls}, frames read {len(reads)}, result {o.kind} {o.value!r}; the routing table requires {want} after exactly one recv_data_frame(True)",
                        loc, {"path": path_text(o)})
 
